@@ -56,6 +56,8 @@ PLAN["C03"] = std(mcq=[CWQ], mct=[CWT])
 PLAN["C04"] = std(mcq=[CWQ], mct=[CWT])
 PLAN["C05"] = std(mcq=[WINQ], mct=[WINT])
 PLAN["C07"] = std(mcq=[DAQ, U8Q, CWQ], mct=[DAT, U8T, CWT])
+PLAN["C07"]["thorough"]["miri"] = 48
+PLAN["C07"]["quick"]["miri"] = 0
 PLAN["C08"] = std(mcq=[CWQ, U8Q], mct=[CWT, U8T])
 PLAN["C09"] = std(mcq=[APIQ], mct=[APIT], rq=("Replay_quick.cfg", SIMQ), rt=("Replay_thorough.cfg", SIMT))
 PLAN["C10"] = std(mcq=[DAQ], mct=[DAT])
